@@ -18,7 +18,7 @@ In both, the set of wake-ups, their times, priorities and the block of handles t
 import random
 
 SIGS = [-2, -5, -4, -7, 3, 11]          # interrupt / timer / resume signals (never 0 = SUCCESS)
-PROFILES = ["resource", "pool", "buffer", "oq", "pq", "cond", "lifecycle", "timers", "mixed", "crowd", "record", "poolprio", "condcrowd", "condfwd", "evgrow", "prioq", "record2", "pqreprio"]
+PROFILES = ["resource", "pool", "buffer", "oq", "pq", "cond", "lifecycle", "timers", "mixed", "crowd", "record", "poolprio", "condcrowd", "condfwd", "evgrow", "prioq", "record2", "pqreprio", "poolleft"]
 
 
 def gen_scenario(rng, profile=None, size=None, exclude=frozenset()):
@@ -235,6 +235,36 @@ def gen_scenario(rng, profile=None, size=None, exclude=frozenset()):
                 cmds.append("prel 1 1")
             out += ["proc %d 1 %d" % (rng.randint(0, 3), len(cmds))] + cmds
         return out, {"profile": profile, "procs": 2, "lines": len(out)}
+    if profile == "poolleft":
+        # multi-step pool acquisitions that are served in instalments, with further waiters behind them, and releases that
+        # leave something over; everybody parks for ever afterwards (a get from an empty buffer) so that whatever is wrong
+        # at the end stays visible: a waiter blocked although units are available, units that nobody holds
+        cap = rng.randint(5, 12)
+        out = ["pool %d" % cap, "buf 1"]
+        h = rng.randint(cap // 2, cap - 1)                      # held by the first holder
+        rel = [rng.randint(1, h)]
+        if rel[0] < h and rng.random() < 0.5:
+            rel.append(rng.randint(1, h - rel[0]))
+        cmds = ["pacq 0 %d" % h]
+        for r_ in rel:
+            cmds += ["hold %d" % rng.randint(1, 3), "prel 0 %d" % r_]
+        cmds += ["bget 0 1"]
+        procs = [(rng.randint(0, 9), cmds)]
+        free = cap - h
+        nbig = rng.randint(1, 2)
+        for _ in range(nbig):
+            want = rng.randint(free + 1, cap)
+            procs.append((rng.randint(0, 9), ["hold %d" % rng.randint(0, 1), "%s 0 %d" % (rng.choice(["pacq", "pacq", "ppre"]), want), "bget 0 1"]))
+        for _ in range(rng.randint(1, 3)):
+            c2 = ["hold %d" % rng.randint(0, 2), "pacq 0 %d" % rng.randint(1, 2)]
+            if rng.random() < 0.3:
+                c2.insert(1, "tadd 0 %d -5" % rng.randint(1, 4))
+            procs.append((rng.randint(0, 9), c2 + ["bget 0 1"]))
+        if rng.random() < 0.3:
+            procs.append((rng.randint(0, 9), ["hold %d" % rng.randint(1, 3), rng.choice(["intr 1 -7 5", "stop 1 3", "prio 2 %d" % rng.randint(0, 9)]), "bget 0 1"]))
+        for pr, c in procs:
+            out += ["proc %d 1 %d" % (pr, len(c))] + c
+        return out, {"profile": profile, "procs": len(procs), "lines": len(out)}
     if profile == "pqreprio":
         # a priority queue with very few objects: reprioritise / position / cancel by handle at every population from 0 to 3,
         # then put objects whose priorities fall between the old and the new value, and drain
@@ -324,13 +354,18 @@ def gen_scenario(rng, profile=None, size=None, exclude=frozenset()):
     if profile == "poolprio":
         # preempting pool acquisitions that have to wait, while priorities of waiters and holders change under them
         cap = rng.choice([4, 6, 10])
-        out = ["pool %d" % cap]
+        # half of the scenarios also have plain resources, held together with pool units (the holder's list of holdings then mixes
+        # entries with and without a reprioritise method)
+        with_res = rng.random() < 0.5
+        out = (["res", "res"] if with_res else []) + ["pool %d" % cap]
         np_ = rng.randint(3, 6)
         for p in range(np_):
             cmds = []
             for _ in range(rng.randint(3, 8)):
                 r = rng.random()
-                if r < 0.3:
+                if with_res and r < 0.12:
+                    cmds.append(rng.choice(["acq 0", "acq 1", "rel 0", "rel 1", "pre 0"]))
+                elif r < 0.3:
                     cmds.append("%s 0 %d" % (rng.choice(["pacq", "ppre", "ppre"]), rng.randint(1, cap)))
                 elif r < 0.5:
                     cmds.append("hold %d" % dur())
